@@ -13,7 +13,14 @@ pub use ::kani;
 
 pub mod refs;
 
+pub mod st;
+
 pub mod h_alu;
+pub mod h_bus;
+pub mod h_board;
+pub mod h_reset;
+pub mod h_edge;
+pub mod h_panic;
 
 #[path = "gen/mod.rs"]
 pub mod gen;
